@@ -804,6 +804,24 @@ async fn do_abandon_async(ctx: &Ctx<'_>, s: &WriteSpec, at: AbandonAt) -> Out {
     Out::Unit
 }
 
+/// Length of the file behind an entry, found without the library (the harness's own reader of
+/// the format): what a caller knows who sized its buffer from `metadata().size`.
+fn content_len(ctx: &Ctx, by: &By) -> Option<usize> {
+    let cp = match by {
+        By::Addr(a) => ctx.content_path(*a),
+        By::Key(k) => {
+            let bucket = reffmt::bucket_path(&ctx.cache, ctx.key(*k));
+            let (algo, hex) = std::fs::read(bucket).ok().and_then(|b| reffmt::lookup(&b, ctx.key(*k))).and_then(|r| r.integrity).and_then(|i| blob::sri_address(&i)).filter(|(_, hex)| hex.len() > 4)?;
+            reffmt::content_path(&ctx.cache, algo, &hex)
+        }
+    };
+    std::fs::metadata(cp).ok().filter(|m| m.is_file()).map(|m| m.len() as usize)
+}
+
+/// `usize::MAX - 1` as the first buffer size: one `read_exact` of the whole entry first (a
+/// runtime's `read_exact` re-offers one partly filled buffer until it is full).
+const EXACT: usize = usize::MAX - 1;
+
 fn read_all_sync<R: Read>(r: &mut R, bufs: &[usize]) -> std::io::Result<Vec<u8>> {
     let mut out = Vec::new();
     let mut i = 0;
@@ -1033,8 +1051,22 @@ fn do_sync(ctx: &Ctx, op: &Op) -> Out {
                 Ok(r) => r,
                 Err(e) => return err_out(e),
             };
+            let mut head = Vec::new();
+            let mut bufs = &bufs[..];
+            if bufs.first() == Some(&EXACT) {
+                bufs = &bufs[1..];
+                if let Some(n) = content_len(ctx, by) {
+                    head = vec![0u8; n];
+                    if let Err(e) = r.read_exact(&mut head) {
+                        return io_out(e);
+                    }
+                }
+            }
             let data = match read_all_sync(&mut r, bufs) {
-                Ok(d) => d,
+                Ok(d) => {
+                    head.extend_from_slice(&d);
+                    head
+                }
                 Err(e) => return io_out(e),
             };
             match r.check() {
@@ -1125,8 +1157,22 @@ async fn do_async(ctx: &Ctx<'_>, op: &Op) -> Out {
                 Ok(r) => r,
                 Err(e) => return err_out(e),
             };
+            let mut head = Vec::new();
+            let mut bufs = &bufs[..];
+            if bufs.first() == Some(&EXACT) {
+                bufs = &bufs[1..];
+                if let Some(n) = content_len(ctx, by) {
+                    head = vec![0u8; n];
+                    if let Err(e) = r.read_exact(&mut head).await {
+                        return io_out(e);
+                    }
+                }
+            }
             let data = match read_all_async(&mut r, bufs).await {
-                Ok(d) => d,
+                Ok(d) => {
+                    head.extend_from_slice(&d);
+                    head
+                }
                 Err(e) => return io_out(e),
             };
             match r.check() {
